@@ -131,9 +131,9 @@ MStep(A, T, RO, refused, tok) ==
          ELSE LET T0 == FreshBU(T, UNone)
                   T1 == IF Fx("rhs_converted_in_place") THEN T0 ELSE ToBU(T0, x, Len(T0.bus))
               IN ResFresh(T1, RO, UNone)
-    [] op \in {"addn", "subn", "np.linspace_nq", "np.logspace_nq", "np.linspace_qn", "np.logspace_qn"} \cup KeepOps ->
+    [] op \in {"addn", "subn", "addn0", "subn0", "np.linspace_nq", "np.logspace_nq", "np.linspace_qn", "np.logspace_qn"} \cup KeepOps ->
          IF refused THEN T ELSE ResShareBU(T, RO, T.objs[x].b)
-    [] op \in {"muln", "divn", "rmul"} -> IF refused THEN T ELSE ResFresh(T, RO, OUnit(T, x))
+    [] op \in {"muln", "divn", "rmul", "muln1", "divn1", "rmul1"} -> IF refused THEN T ELSE ResFresh(T, RO, OUnit(T, x))
     [] op = "rdiv" -> IF refused THEN T ELSE ResFresh(T, RO, ExScale(OUnit(T, x), RInt(-1)))
     [] op \in PowOps -> IF refused THEN T ELSE ResFresh(T, RO, ExScale(OUnit(T, x), PowN(op)))
     [] op \in SinOps ->
